@@ -31,11 +31,11 @@ def run(ctx):
     thorough = ctx.tier == "thorough"
     jobs = []
     for i in range(4):
-        jobs.append({"part": "bnperm", "mode": "native", "nrandom": 100 if thorough else 30, "shard": i})
-    for i in range(8 if thorough else 4):
-        jobs.append({"part": "bnhash", "mode": "native", "maxlen": 30, "nrandom": 3 if thorough else 2, "shard": 20 + i})
+        jobs.append({"part": "bnperm", "mode": "native", "nrandom": 600 if thorough else 30, "shard": i})
+    for i in range(16 if thorough else 4):
+        jobs.append({"part": "bnhash", "mode": "native", "maxlen": 30, "nrandom": 8 if thorough else 2, "shard": 20 + i})
     jobs.append({"part": "bnhash", "mode": "plain", "maxlen": 30, "nrandom": 0, "shard": 30})
-    jobs.append({"part": "tovec", "mode": "native", "nrandom": 400 if thorough else 120, "shard": 40})
+    jobs.append({"part": "tovec", "mode": "native", "nrandom": 3000 if thorough else 120, "shard": 40})
     jobs.append({"part": "tovec", "mode": "plain", "nrandom": 40, "shard": 41})
     # compiled with gnark's real builders (R1CS, SCS) on witness inputs: linear-expression aliasing exists only there
     for i in range(3 if thorough else 1):
